@@ -34,6 +34,46 @@ def harness(sym):
                       f"trailing blank line {lid} is reported as executed: {root_ids}")
 
 
+def harness_generated(sym):
+    """Methods assembled by solver selectors (props/gen_methods.py): tolerant per-flow oracle + exact main-flow reference."""
+    from props.gen_methods import generate, check_reference, Infeasible
+    sh = sym.shard
+    try:
+        pc = generate(sym, sh["slots"], sh["body"], sh.get("watch", False), sh.get("uod", False), sh.get("first"), sh.get("blocks", 3), tuple(sh.get("pre", ())))
+    except Infeasible:
+        sym.assume(False)
+    n_lines = pc.count("\n")
+    n = 2 * n_lines + 3 * pc.count("Wait:") + (6 if "CmdA" in pc else 0) + 8
+    sc = run_scenario(sym, "generated", n, pcode=pc, collect_runlog=False)
+    sym.check(not sc.tick_errors, "C02|generated|tick-raised", lambda: f"{pc!r}: Engine.tick raised {sc.tick_errors[:1]}")
+    check_trace(sym, sc, pc, {"C02"})
+    watch_ends_block = "Watch" in pc and any(ln.strip() == "End block" and i > 0 and pc.split("\n")[i - 1].strip().startswith("Mark: W") for i, ln in enumerate(pc.split("\n")))
+    if not watch_ends_block:
+        finished = check_reference(sym, sc, pc, "C02")
+        stuck = False
+        sym.check(finished or stuck, "C02|generated|did-not-finish", lambda: f"{pc!r}: 'END' not reached in {n} ticks; marks {sc.marks_by_tick[-1]}")
+
+
+def _gen_shards(tier):
+    """Shards fix the first item and the first two selector draws (finer shards = more parallelism; misfits are empty)."""
+    cfgs = []
+    if tier == "quick":
+        cfgs += [{"slots": 2, "body": 2, "blocks": 2, "first": f} for f in ("mark", "block", "wait")]
+        cfgs += [{"slots": 2, "body": 2, "blocks": 2, "first": "watch", "watch": True, "in1": [a, 99]} for a in (0, 5)]
+        cfgs += [{"slots": 2, "body": 2, "blocks": 2, "first": "block", "watch": True, "in1": [3, 99]}]
+    else:
+        cfgs += [{"slots": 3, "body": 2, "blocks": 2, "first": f, "uod": True} for f in ("mark", "block", "wait", "uod")]
+        cfgs += [{"slots": 2, "body": 2, "blocks": 3, "first": "block"}]
+        for a in (0, 3, 6, 10):
+            cfgs += [{"slots": 3, "body": 2, "blocks": 2, "first": f, "watch": True, "in1": [a, 99]} for f in ("block", "watch", "mark")]
+    out = []
+    for c in cfgs:
+        for p0 in range(7):
+            for p1 in range(7):
+                out.append(dict(c, pre=[p0, p1]))
+    return out
+
+
 def _shards(tier):
     if tier == "quick":
         out = []
@@ -47,7 +87,21 @@ def _shards(tier):
     return [{"template": t, "n": TICKS[t] + 4} for t in TEMPLATES]
 
 
-OBLIGATIONS = [Obligation(
+_GENERATED = Obligation(
+    name="generated_methods", kind="crosshair", harness=harness_generated, shards=_gen_shards,
+    cpu_budget={"quick": 400.0, "thorough": 3000.0},
+    encoded=["openpectus.lang.exec.pinterpreter:PInterpreter.visit", "openpectus.lang.exec.pinterpreter:PInterpreter._visit_children",
+             "openpectus.lang.exec.pinterpreter:PInterpreter.visit_BlockNode", "openpectus.lang.exec.pinterpreter:PInterpreter.visit_EndBlockNode",
+             "openpectus.lang.exec.pinterpreter:PInterpreter.visit_EndBlocksNode", "openpectus.lang.exec.pinterpreter:PInterpreter.visit_WatchNode",
+             "openpectus.lang.model.parser:PcodeParser.parse_method"],
+    symbolic="the kind of every item of the method (selectors over Mark / Wait / UOD command / Block / End block / End blocks / Watch and the shape of the Watch body), UOD command duration",
+    bounds={"quick": "2 top-level items + 'Mark: END', block bodies of 2 items + 'End block', nesting depth 2, at most 3 blocks and one Watch (condition true from tick 0 or 5)",
+            "thorough": "3 top-level items, bodies of 2 items (and 2 top-level items with bodies of 3), one UOD command, one Watch with the condition true from tick 0 / 3 / 6 / 10"},
+    assumptions=["reference for the main flow (props/gen_methods.reference): source order; Block left through End block (innermost) / End blocks (all); lines behind the End line in the ended blocks never run",
+                 "a Watch body is a separate flow judged by the tolerant per-flow oracle; when a Watch body itself contains 'End block' only that oracle is applied",
+                 "run length = 2 ticks per line + allowances: 'END' must be reached", "tick interval fixed; fake hardware; log statements removed at import"])
+
+OBLIGATIONS = [_GENERATED, Obligation(
     name="order_once", kind="crosshair", harness=harness, shards=_shards,
     cpu_budget={"quick": 300.0, "thorough": 2400.0},
     encoded=["openpectus.lang.exec.pinterpreter:PInterpreter.visit", "openpectus.lang.exec.pinterpreter:PInterpreter._visit_children",
